@@ -21,8 +21,11 @@ From PM.theories Require Import Base Expr Struct FrBaseA FrTcp FrSpecA Lrc FrAsc
                                 EndToEnd EndToEndSerial EndToEndExt CorrE2E CorrE2ESerial CorrE2EExt.
 From PM.Generated Require Import GenFramerA.
 From PM.Generated Require GenStore GenExec GenExecOther GenServer.
+From PM.theories Require FrBCommon FrRtu FrSpecB.
+From PM.Generated Require GenFramerB.
 From PM.proofs Require Import Exec_proofs Server_proofs ExecOther_proofs EndToEnd_adapt_proofs EndToEnd_spec_proofs EndToEnd_proofs
-                              EndToEndSerial_proofs EndToEndExt_proofs.
+                              EndToEndSerial_proofs EndToEndRtu_proofs EndToEndExt_proofs EndToEndRtuExt_proofs.
+From PM.proofs Require FrB_rtu_proofs.
 From PM.Props Require C09_e2e.
 Open Scope string_scope.
 Open Scope list_scope.
@@ -135,4 +138,53 @@ Proof.
            - right. repeat split; cbn; try lia; try tauto. eexists; eexists; repeat split; reflexivity.
            - left. repeat split; cbn; try lia; try tauto. eexists; cbn; repeat split; reflexivity. }
   split; [vm_compute; reflexivity|]. split; [vm_compute; reflexivity|]. split; vm_compute; reflexivity.
+Qed.
+
+(* ---- RTU framing: [rtu_item_ok_x] = a data-access request message of the ten kinds or a station request of
+   the proved region, addressed to a served unit — or such a message to a unit the filter rejects (skipped;
+   as in C09_e2e_rtu a skipped frame needs a size rule: the station requests have the fixed rules 4 and 8 of
+   the generated table, C09_e2e_rtu_station_size) *)
+Theorem C09_e2e_rtu_ext : forall sk cfg (x : xstate) (st : sstate) (qs : list e2e_req) (chunks : list bytes),
+  In sk serial_fes -> xrel x st ->
+  Forall (rtu_item_ok_x sk cfg (x_keys x) (unit_cfg sk cfg (x_keys x))) qs ->
+  concat chunks = concat (map req_adu_rtu qs) ->
+  exists x' fs',
+    rtu_server_run_x sk cfg x chunks = result x' (snd (spec_run_x rtu_adu (cf_single cfg) st qs)) fs' /\
+    xrel x' (fst (spec_run_x rtu_adu (cf_single cfg) st qs)).
+Proof. exact e2e_rtu_ext. Qed.
+Print Assumptions C09_e2e_rtu_ext.
+
+Theorem C09_e2e_rtu_station_size : forall m ow u, owire_of_msg m = Some ow -> spec_wf m = true -> wfb (u :: spec_pdu m) = true ->
+  exists fc data, spec_pdu m = fc :: data /\
+    FrB_rtu_proofs.simple_rule (FrBCommon.lookup_rule GenFramerB.server_decoder (FrBCommon.zb fc)) = true /\
+    FrBCommon.frame_size (FrBCommon.lookup_rule GenFramerB.server_decoder (FrBCommon.zb fc)) (FrSpecB.spec_adu_rtu u (spec_pdu m))
+      = Ok (FrBCommon.zlen (FrSpecB.spec_adu_rtu u (spec_pdu m))).
+Proof. exact rtu_station_size. Qed.
+Print Assumptions C09_e2e_rtu_station_size.
+
+(* non-vacuity: the request list of C09_e2e_ext_nonvacuous over RTU, one byte per read for the first frame *)
+Definition nvxr_stream : bytes := concat (map req_adu_rtu nvx_reqs).
+Definition nvxr_chunks : list bytes := map (fun b => [b]) (firstn 8 nvxr_stream) ++ [[]; skipn 8 nvxr_stream].
+
+Example C09_e2e_rtu_ext_nonvacuous :
+  let sk := GenServer.sync_serial in let cfg := C09_e2e.nv_cfg in let x := nvx_x in
+  Forall (rtu_item_ok_x sk cfg (x_keys x) (unit_cfg sk cfg (x_keys x))) nvx_reqs /\
+  concat nvxr_chunks = concat (map req_adu_rtu nvx_reqs) /\
+  snd (spec_run_x rtu_adu true {| ss_units := abs_units (x_units x); ss_dev := abs_dev (x_dev x) |} nvx_reqs) =
+    e_out (rtu_server_run_x sk cfg x nvxr_chunks) /\
+  length (e_out (rtu_server_run_x sk cfg x nvxr_chunks)) = 69%nat.
+Proof.
+  cbv zeta. split.
+  { unfold nvx_reqs. repeat (apply Forall_cons || apply Forall_nil);
+      (split; [cbn; lia|]; split; [reflexivity|]).
+    - split; [left; eexists; eexists; repeat split; reflexivity|]. left. repeat split; cbn; try lia; tauto.
+    - split; [right; eexists; eexists; repeat split; try reflexivity; left; reflexivity|]. left. repeat split; cbn; try lia; tauto.
+    - split; [right; eexists; eexists; repeat split; reflexivity|]. left. repeat split; cbn; try lia; tauto.
+    - split; [right; eexists; eexists; repeat split; try reflexivity; right; reflexivity|]. left. repeat split; cbn; try lia; tauto.
+    - split; [right; eexists; eexists; repeat split; try reflexivity; left; reflexivity|]. left. repeat split; cbn; try lia; tauto.
+    - split; [right; eexists; eexists; repeat split; try reflexivity; left; reflexivity|]. left. repeat split; cbn; try lia; tauto.
+    - split; [right; eexists; eexists; repeat split; reflexivity|]. left. repeat split; cbn; try lia; tauto.
+    - split; [right; eexists; eexists; repeat split; reflexivity|]. left. repeat split; cbn; try lia; tauto.
+    - split; [left; eexists; eexists; repeat split; reflexivity|]. left. repeat split; cbn; try lia; tauto. }
+  split; [vm_compute; reflexivity|]. split; vm_compute; reflexivity.
 Qed.
